@@ -19,8 +19,10 @@ Suffix == {".txt", "txt", ".md", ".TXT"}         \* "txt": a bare name ending in
 Spell  == {"plain", "trailing", "dot", "dottrailing", "absolute", "cwd", "cwdslash", "inner", "updown", "symlink", "symlinktrailing"}   \* the last two: dir is a symbolic link to the corpus directory
 (* history before the load: nothing; every key of the tree (and one foreign key) registered with other content;
    the tree loaded once with other file contents (then edited, then loaded again) *)
-Mode   == {"fresh", "pre", "reload", "txtdir"}       \* txtdir: the tree also holds an (empty) DIRECTORY named zz.txt at variant depth -- not a file, nothing to load
-Combos == (Spell \X {"fresh"}) \cup ({"plain", "absolute"} \X {"pre", "reload", "txtdir"})
+Mode   == {"fresh", "pre", "reload", "txtdir",       \* txtdir: the tree also holds an (empty) DIRECTORY named zz.txt at variant depth -- not a file, nothing to load
+           "preempty", "reloadempty",                \* as pre / reload, but the files loaded (last) are EMPTY: a document without words replaces what the key held
+           "links"}                                  \* every file of the tree is a symbolic link to a text kept elsewhere: a corpus file is whatever its path leads to
+Combos == (Spell \X {"fresh"}) \cup ({"plain", "absolute"} \X {"pre", "reload", "txtdir"}) \cup ({"plain"} \X {"preempty", "reloadempty", "links"})
 
 (* candidate files: depth 1..5 below the corpus directory *)
 Dirs(d) == CASE d = 1 -> {<<>>}
